@@ -356,7 +356,41 @@ def run_class(ctx, p):
                 '%s raised %r for S=%s' % (api, e, core.short(S)))
 
 
-RUNNERS = {'exp': run_exp, 'log': run_log, 'class': run_class}
+def run_class_multi(ctx, p):
+    """sequence forms of the class wrappers: Exp of several algebra elements, log / twist of a multi-valued pose"""
+    import spatialmath as sm
+    dim, kind = p['dim'], p['kind']
+    Ss = [np.asarray(x, dtype=np.float64) for x in p['S']]
+    C = {(3, 'so'): sm.SO3, (3, 'se'): sm.SE3, (2, 'so'): sm.SO2, (2, 'se'): sm.SE2}[(dim, kind)]
+    api = C.__name__
+    Ts = [ref.f64(ref_exp(kind, S)) for S in Ss]
+    try:
+        if p['which'] == 'Exp':
+            if dim == 3 and kind == 'so':
+                X = C.Exp(np.array(Ss), so3=False)
+            elif dim == 3:
+                X = C.Exp([S for S in Ss])
+            else:
+                X = C.Exp([S for S in Ss])
+            if type(X) is not C or len(X) != len(Ss):
+                ctx.bad('class', dict(api=api + '.Exp[seq]', kind='wrong_type_or_length'), '%s.Exp of %d elements returned %s[%d]' % (api, len(Ss), type(X).__name__, len(X)))
+                return
+            for S, T in zip(Ss, X.data):
+                check_exp_value(ctx, 'class', api + '.Exp[seq]', kind, S, T, 'seq')
+        else:
+            X = C(Ts)
+            for twist in (True, False):
+                L = X.log(twist=twist)
+                if not isinstance(L, list) or len(L) != len(Ts):
+                    ctx.bad('class', dict(api=api + '.log[seq]', kind='wrong_type_or_length'), '%s.log of %d values returned %s' % (api, len(Ts), core.short(L, 100)))
+                    return
+                for T, l in zip(Ts, L):
+                    check_log_value(ctx, 'class', api + '.log[seq]', T, l, twist, dim)
+    except Exception as e:
+        ctx.bad('class', dict(api=api + '.' + p['which'] + '[seq]', kind='raised', exc=type(e).__name__), '%s %s on a sequence raised %r' % (api, p['which'], e))
+
+
+RUNNERS = {'exp': run_exp, 'log': run_log, 'class': run_class, 'class_multi': run_class_multi}
 
 
 # ----------------------------------------------------------------------------- workload
@@ -435,3 +469,7 @@ def run(ctx):
         if with_theta:
             p['theta'] = float(gen.angle(rng))
         drive(RUNNERS, ctx, 'class', p)
+        if rng.random() < 0.15:
+            k2 = 'so' if rng.random() < 0.4 else 'se'
+            n = int(rng.integers(2, 5))
+            drive(RUNNERS, ctx, 'class_multi', dict(dim=dim, kind=k2, which=['Exp', 'log'][rng.integers(2)], S=[algebra(rng, dim, k2) for _ in range(n)]))
